@@ -17,6 +17,7 @@ EXPLANATION = (
     "same template>) and the complex buckets are filtered by !exceptions.contains(sel); (4) procedural "
     "rules never become generic (return before any insertion when plain_css_selector() is None); "
     "(5) key extraction uses the Unicode-aware fast-path regex and falls back to escape decoding."
+    ' Later additions: every generic rule of a FilterSet reaches the cache (no de-duplication in the entry points, C01.9); a rejected load leaves the stores untouched (C10.2); the bucket loops visit every selector.'
 )
 NOT_DECIDED = "CSS-escape decoding over all identifier spellings (value level)."
 
